@@ -1,0 +1,104 @@
+//go:build verif
+
+// Package verifhook provides named instrumentation points for runtime
+// verification. This is the active implementation (build tag "verif").
+package verifhook
+
+import (
+	"sync"
+	"sync/atomic"
+)
+
+// Enabled reports whether the package was built with the verif tag.
+const Enabled = true
+
+// Handler is called when a point is reached. It runs on the goroutine that
+// reached the point and may sleep, block, or stop the member.
+type Handler func(member, name string)
+
+type hit struct {
+	Member string
+	Name   string
+	Seq    uint64
+}
+
+var (
+	mu       sync.RWMutex
+	handlers = map[string]Handler{}
+	counts   sync.Map // "member|name" -> *uint64
+	seq      uint64
+
+	ringMu sync.Mutex
+	ring   []hit
+)
+
+const ringCap = 1 << 16
+
+func key(member, name string) string { return member + "|" + name }
+
+// Set installs a handler for (member, name). member "*" matches any member.
+func Set(member, name string, h Handler) {
+	mu.Lock()
+	defer mu.Unlock()
+	if h == nil {
+		delete(handlers, key(member, name))
+		return
+	}
+	handlers[key(member, name)] = h
+}
+
+// Clear removes every handler.
+func Clear() {
+	mu.Lock()
+	defer mu.Unlock()
+	handlers = map[string]Handler{}
+}
+
+// Counts returns a snapshot of hit counters keyed by "member|name".
+func Counts() map[string]uint64 {
+	res := map[string]uint64{}
+	counts.Range(func(k, v interface{}) bool {
+		res[k.(string)] = atomic.LoadUint64(v.(*uint64))
+		return true
+	})
+	return res
+}
+
+// Trace returns the most recent hits (member, name) in order and resets the ring.
+func Trace() [][2]string {
+	ringMu.Lock()
+	defer ringMu.Unlock()
+	res := make([][2]string, 0, len(ring))
+	for _, h := range ring {
+		res = append(res, [2]string{h.Member, h.Name})
+	}
+	ring = ring[:0]
+	return res
+}
+
+// Point marks a named instrumentation point reached by the given member.
+func Point(member, name string) {
+	k := key(member, name)
+	c, ok := counts.Load(k)
+	if !ok {
+		c, _ = counts.LoadOrStore(k, new(uint64))
+	}
+	atomic.AddUint64(c.(*uint64), 1)
+
+	s := atomic.AddUint64(&seq, 1)
+	ringMu.Lock()
+	if len(ring) < ringCap {
+		ring = append(ring, hit{Member: member, Name: name, Seq: s})
+	}
+	ringMu.Unlock()
+
+	mu.RLock()
+	h := handlers[k]
+	if h == nil {
+		h = handlers[key("*", name)]
+	}
+	mu.RUnlock()
+	if h != nil {
+		h(member, name)
+	}
+}
